@@ -35,7 +35,8 @@ func idxPred[T comparable](d *Dom[T], p, k int) func(int, T) bool {
 	case 6:
 		return func(i int, v T) bool { return i%3 == 0 && d.Cmp(v, pivot) >= 0 }
 	}
-	return func(i int, v T) bool { return d.Cmp(v, pivot) == 0 || i == k%7 }
+	// (the exact rendering tells -0 from +0 and one representative of a comparator class from another)
+	return func(i int, v T) bool { return d.Cmp(v, pivot) == 0 || i == k%7 || hashStr(d.Str(v))%4 == 0 }
 }
 
 func tabIndex[T comparable](d *Dom[T], v T) int {
@@ -83,7 +84,7 @@ func keyPred[K comparable](d *Dom[K], p, k int) func(K, string) bool {
 	case 6:
 		return func(key K, v string) bool { return strings.HasSuffix(v, "1") || d.Cmp(key, pivot) == 0 }
 	}
-	return func(key K, v string) bool { return hashStr(v)%3 == 0 && d.Cmp(key, pivot) != 0 }
+	return func(key K, v string) bool { return hashStr(d.Str(key)+v)%3 == 0 && d.Cmp(key, pivot) != 0 }
 }
 
 func keyMap[K comparable](d *Dom[K], vtab []string, p, k int) func(K, string) (K, string) {
